@@ -164,6 +164,12 @@ func sortOf(t types.Type) Sort {
 	return BV(w)
 }
 
+// nilSlice is the nil slice of element type et (zero length terms, so that
+// slicing and comparing lengths need no special case).
+func nilSlice(et types.Type) SliceV {
+	return SliceV{elem: et, off: I64(0), ln: I64(0), cp: I64(0)}
+}
+
 func isReflectValue(t types.Type) bool {
 	n, ok := t.(*types.Named)
 	if !ok {
@@ -193,7 +199,7 @@ func zeroValue(t types.Type) Value {
 	case *types.Pointer:
 		return Ptr{}
 	case *types.Slice:
-		return SliceV{elem: u.Elem()}
+		return nilSlice(u.Elem())
 	case *types.Map:
 		return MapV{}
 	case *types.Chan:
